@@ -74,7 +74,7 @@ func (vc *VC) execInstr(in ssa.Instruction, pc string, st *State) {
 		addr := vc.val(x.Addr)
 		elemT := x.Addr.Type().Underlying().(*types.Pointer).Elem()
 		vc.checkGlobalStore(x, pc)
-		vc.storeVal(st, addr, elemT, vc.val(x.Val))
+		vc.storeThrough(st, x.Addr, addr, elemT, vc.val(x.Val))
 	case *ssa.TypeAssert:
 		vc.execTypeAssert(x, pc, st)
 	case *ssa.Range:
@@ -116,8 +116,8 @@ func (vc *VC) allocID(st *State) string {
 
 func (vc *VC) zeroObject(st *State, pc string, id string, elemT types.Type, single bool) {
 	// fresh memory is zero: ground facts for a single object, quantified over the index for arrays
-	for _, lf := range leavesOf(elemT) {
-		h := vc.enc.HeapFor(lf.t)
+	for _, lf := range vc.enc.Leaves(elemT) {
+		h := lf.heap
 		ha := vc.heapGet(st, h)
 		z := vc.enc.Zero(lf.t)
 		if single {
@@ -228,6 +228,11 @@ func (vc *VC) execUnOp(x *ssa.UnOp, pc string, st *State) {
 		vc.overflowCheck(x, v, x.Type(), pc)
 		vc.setVal(x, v)
 	case token.MUL: // load
+		if g, ok := x.X.(*ssa.Global); ok && g.Name() == "init$guard" {
+			// package initializer: verified for its one real execution
+			vc.setVal(x, "false")
+			return
+		}
 		p := vc.val(x.X)
 		elemT := x.X.Type().Underlying().(*types.Pointer).Elem()
 		// loads through pointers produced by FieldAddr/IndexAddr/Alloc/Global are known non-nil; others need a check
@@ -236,7 +241,7 @@ func (vc *VC) execUnOp(x *ssa.UnOp, pc string, st *State) {
 		default:
 			vc.oblige("nil", "", pc, not(eq(p, nilLoc)), nil, x.Pos(), "load through nil pointer")
 		}
-		v := vc.setVal(x, vc.loadVal(st, p, elemT))
+		v := vc.setVal(x, vc.loadThrough(st, x.X, p, elemT))
 		vc.assume(pc, vc.typeInv(st, v, elemT))
 	default:
 		panic(unsupported("unary " + x.Op.String()))
@@ -353,7 +358,7 @@ func (vc *VC) eqTerm(a, b string, t types.Type, x *ssa.BinOp, pc string) string 
 		}
 		// interface equality panics when both hold the same non-comparable dynamic type
 		vc.oblige("ifacecmp", "", pc, implies(eq(sx("i_dyn", a), sx("i_dyn", b)), vc.comparable(sx("i_dyn", a))), nil, x.Pos(), "comparing interface values of a non-comparable dynamic type panics")
-		return eq(a, b)
+		return sx("iface_eq", a, b)
 	case *types.Signature:
 		if c, ok := x.Y.(*ssa.Const); ok && c.Value == nil {
 			return eq(a, "fn_nil")
@@ -430,6 +435,11 @@ func (vc *VC) execTypeAssert(x *ssa.TypeAssert, pc string, st *State) {
 	} else {
 		ok = eq(sx("i_dyn", v), vc.enc.TypeConst(at))
 		res = vc.enc.Unbox(vc.enc.SortOf(at), sx("i_val", v))
+	}
+	if _, isI := at.Underlying().(*types.Interface); !isI {
+		// well-formed interface value: a payload of dynamic type T is a boxed value of T's sort
+		srt := vc.enc.SortOf(at)
+		vc.assume(pc, implies(ok, eq(sx("i_val", v), vc.enc.Box(srt, vc.enc.Unbox(srt, sx("i_val", v))))))
 	}
 	if x.CommaOk {
 		okn := vc.define("ok_"+x.Name(), "Bool", ok)
